@@ -798,7 +798,15 @@ def oracle_clients(check, tier):
         w = World(rng, model_only=False, header_ns_tns=True)
         for prot in PROTS:
             for val in VALIDATORS:
-                app, plan = w.app(prot, val)
+                try:
+                    app, plan = w.app(prot, val)
+                except Exception as e:
+                    kinds = sorted(set(f['ty'][1]['k'] + ':' + f['kind'] for c in w.desc['classes'] for f in c['fields']
+                                       if f['ty'][0] == 'leaf' and f['kind'] != 'elem'))
+                    check.fail('C01|application|%s|%s|%s|%s' % (prot, val, type(e).__name__, ','.join(kinds)[:80]),
+                               'the Application cannot be built for %s validator=%s: %r' % (prot, val, e),
+                               {'kind': 'wsdl', 'universe': X.jsonable(w.desc), 'service': X.jsonable(w.svc), 'protocol': prot, 'validator': val})
+                    continue
                 wapp = WsgiApplication(app)
                 zs = None
                 if prot != 'xml':
